@@ -1215,13 +1215,14 @@ def spec_relative(env, path, qs):
     return Ite(Len(qs) > 0, root + path + '?' + qs, root + path)
 
 
-URL_KEYS = [[], ['HTTP_FORWARDED'], ['HTTP_X_FORWARDED_PROTO', 'HTTP_X_FORWARDED_HOST'], ['HTTP_FORWARDED', 'HTTP_X_FORWARDED_PROTO', 'HTTP_X_FORWARDED_HOST']]
+# every subset of the three forwarding headers (scheme and host are decided independently: X-Forwarded-Proto without X-Forwarded-Host etc.)
+URL_KEYS = [[k for i, k in enumerate(('HTTP_FORWARDED', 'HTTP_X_FORWARDED_PROTO', 'HTTP_X_FORWARDED_HOST')) if n >> i & 1] for n in range(8)]
 
 
 def _url_property(prop, field, forwarded):
     def h(v):
         env = server_env(v, optional=['SCRIPT_NAME'])
-        for k in (URL_KEYS[v.choose(4, 'forwarding-headers')] if forwarded else []):
+        for k in (URL_KEYS[v.choose(8, 'forwarding-headers')] if forwarded else []):
             env[k] = v.str(k)
         path, qs = v.str('path'), v.str('query_string')
         req = wsgi_req(v, env, path=path, query_string=qs)
@@ -1567,8 +1568,10 @@ def ws_flag(v):
 
 
 def asgi_req(v, headers, scope=None, **fields):
-    f = dict(is_websocket=False, uri_template=None)
+    f = dict(uri_template=None)
     f.update(fields)
+    if 'is_websocket' not in f:
+        f['is_websocket'] = ws_flag(v)  # never read by the header accessors; symbolic so that a change that starts reading it is explored both ways
     return v.obj(AREQ, _asgi_headers=headers, scope=scope if scope is not None else {'type': 'http'}, **f)
 
 
@@ -1841,8 +1844,12 @@ def _asgi_host_port(what):
     return h
 
 
-harness(PROP, AREQ + '.host', name='asgi_host', setup=_base_setup, inline=A_INLINE)(_asgi_host_port('host'))
-harness(PROP, AREQ + '.port', name='asgi_port', setup=_base_setup, inline=A_INLINE)(_asgi_host_port('port'))
+# one variant without Host header, and with one: one per shape of scope['server'] (missing / None / (name, port)): all combinations
+for _what in ('host', 'port'):
+    harness(PROP, AREQ + '.' + _what, name='asgi_%s[no-host-header]' % _what, setup=_base_setup, inline=A_INLINE, fix={'has-host': 0})(_asgi_host_port(_what))
+    for _k, _nm in enumerate(('missing', 'none', 'given')):
+        harness(PROP, AREQ + '.' + _what, name='asgi_%s[host-header,server-%s]' % (_what, _nm), setup=_base_setup, inline=A_INLINE,
+                fix={'has-host': 1, 'scope-server': _k})(_asgi_host_port(_what))
 
 
 @harness(PROP, AREQ + '.netloc', name='asgi_netloc', setup=_base_setup, inline=A_INLINE)
@@ -1893,12 +1900,13 @@ def asgi_forwarded_host(v):
 def _asgi_url_property(prop, field, forwarded):
     def h(v):
         shape = v.choose(3, 'scope-shape')
-        scope = [{'type': 'http'}, {'type': 'http', 'scheme': 'https', 'server': (v.str('server_name'), 443)},
-                 {'type': 'http', 'scheme': 'http', 'server': (v.str('server_name'), 8000), 'root_path': v.str('root_path')}][shape]
-        fwd = [[], ['forwarded'], ['x-forwarded-proto', 'x-forwarded-host'], ['forwarded', 'x-forwarded-proto', 'x-forwarded-host']]
-        headers, view = asgi_headers(v, optional=['host'], always=fwd[v.choose(4, 'forwarding-headers')] if forwarded else [])
+        scope = [{'type': 'http'}, {'type': 'http', 'scheme': scheme_value(v), 'server': (v.str('server_name'), v.int('server_port', 0, 65535))},
+                 {'type': 'http', 'scheme': scheme_value(v), 'server': (v.str('server_name'), v.int('server_port', 0, 65535)), 'root_path': v.str('root_path')}][shape]
+        ws = ws_flag(v)
+        fwd = [[k.replace('HTTP_', '').replace('_', '-').lower() for k in ks] for ks in URL_KEYS]
+        headers, view = asgi_headers(v, optional=['host'], always=fwd[v.choose(8, 'forwarding-headers')] if forwarded else [])
         path, qs = v.str('path'), v.str('query_string')
-        req = asgi_req(v, headers, scope, path=path, query_string=qs)
+        req = asgi_req(v, headers, scope, path=path, query_string=qs, is_websocket=ws)
         parser = forwarded_parser(v, max_hops=1, fields=('host', 'scheme'))
         with patched(v, WM, '_parse_forwarded_header', parser):
             out = v.call(req)
@@ -1907,8 +1915,8 @@ def _asgi_url_property(prop, field, forwarded):
                 return
             hops = hops_of(parser)
             root = scope.get('root_path', '')
-            scheme = spec_forwarded_scheme(wsgi_view(view, scope), hops) if forwarded else a_scheme(scope)
-            netloc = a_forwarded_host(view, scope, hops) if forwarded else a_netloc(view, scope)
+            scheme = spec_forwarded_scheme(wsgi_view(view, scope, ws), hops) if forwarded else a_scheme(scope, ws)
+            netloc = a_forwarded_host(view, scope, hops, ws) if forwarded else a_netloc(view, scope, ws)
             rel = Ite(Len(qs) > 0, root + path + '?' + qs, root + path)
             want = rel if prop == 'relative_uri' else scheme + '://' + netloc + (rel if prop.endswith('uri') else root)
             v.check('value-is-the-concatenation-of-its-parts', out.value == want)
